@@ -7,13 +7,16 @@
                                         buildHoverContentWithTransactions and the six builders,
                                         countPostingsForAccountInTransactions, forEachTag,
                                         countTagUsage, countTagValueUsage, collectTagValues,
-                                        astRangeToProtocol
+                                        (the range: columnMapper.toProtocol, the cursor:
+                                        columnMapper.runePosition — internal/server/position.go)
     internal/server/server.go           resolvedForDocument, workspaceResolvedFor (which resolved
                                         journal Hover uses)
     internal/workspace/workspace.go     Workspace.Contains
     internal/include/types.go           ResolvedJournal.AllTransactions
     internal/analyzer/account_balance.go CalculateAccountBalances(FromTransactions)
-    internal/lsputil/mapper.go          UTF16Len (on Go strings = byte sequences)
+    internal/lsputil/mapper.go          RuneOffsetToUTF16, UTF16OffsetToRuneOffset (on the lines of
+                                        the document, valid UTF-8: `List Char` as in HL/Model/Text.lean);
+                                        utf8.RuneCountInString (on Go strings = byte sequences)
     shopspring/decimal                  the zero Decimal, Add (RescalePair), String — only as far as
                                         Hover uses them; the full library model is HL/Model/Dec.lean
                                         (owned by the C20 "balances" part)
@@ -37,6 +40,7 @@
     list keyed by (account, commodity).  `sort.Strings` makes the output independent of map order.
 -/
 import HL.Model.Ast
+import HL.Model.Text
 namespace HL.Hover
 open HL HL.Ast
 
@@ -125,6 +129,16 @@ def u16lenF : Nat → Bytes → Nat
 /-- `lsputil.UTF16Len`. -/
 def u16len (s : Bytes) : Nat := u16lenF s.length s
 
+def runeLenF : Nat → Bytes → Nat
+  | 0, _ => 0
+  | f + 1, s =>
+    match s with
+    | [] => 0
+    | _ => 1 + runeLenF f (s.drop (runeStep s).2)
+
+/-- `utf8.RuneCountInString`. -/
+def runeLen (s : Bytes) : Nat := runeLenF s.length s
+
 /-! ### ResolvedJournal -/
 
 /-- `include.ResolvedJournal`: `Files` is a Go map (association list, first match wins — keys
@@ -191,7 +205,8 @@ structure LspPos where
   char : Nat
 deriving Repr, DecidableEq, Inhabited
 
-/-- `positionInRange`: 1-based comparison, both ends inclusive. -/
+/-- `positionInRange`: 1-based comparison, both ends inclusive; the cursor's character counts
+    runes, like the columns of the tree. -/
 def positionInRange (p : LspPos) (r : Rng) : Bool :=
   let line := p.line + 1
   let col := p.char + 1
@@ -219,17 +234,18 @@ def payeeOrDescription (tx : Transaction) : Bytes :=
 /-- `estimatePayeeRange`: one column after the date, two more when a status mark is present. -/
 def estimatePayeeRange (tx : Transaction) (payee : Bytes) : Rng :=
   let startCol := tx.date.range.stop.col + 1 + (if tx.status != .none then 2 else 0)
-  ⟨⟨tx.date.range.start.line, startCol, 0⟩, ⟨tx.date.range.start.line, startCol + u16len payee, 0⟩⟩
+  ⟨⟨tx.date.range.start.line, startCol, 0⟩, ⟨tx.date.range.start.line, startCol + runeLen payee, 0⟩⟩
 
 /-- The element reported for a tag whose range contains the cursor: the name part up to and
-    including the colon column, the value part after it. -/
+    including the colon column; after it the value, whose range is measured back from the end
+    of the tag. -/
 def tagElement (t : Tag) (p : LspPos) : Element :=
-  if p.char + 1 ≤ t.range.start.col + u16len t.name then
-    .tag ⟨t.range.start, ⟨t.range.start.line, t.range.start.col + u16len t.name,
+  if p.char + 1 ≤ t.range.start.col + runeLen t.name then
+    .tag ⟨t.range.start, ⟨t.range.start.line, t.range.start.col + runeLen t.name,
                           t.range.start.off + t.name.length⟩⟩ t.name
   else
-    .tagValue ⟨⟨t.range.start.line, t.range.start.col + u16len t.name + 1,
-                t.range.start.off + t.name.length + 1⟩, t.range.stop⟩ t.name t.value
+    .tagValue ⟨⟨t.range.stop.line, t.range.stop.col - runeLen t.value,
+                t.range.stop.off - t.value.length⟩, t.range.stop⟩ t.name t.value
 
 /-- `findTagAtPosition`. -/
 def findTagAtPosition (tags : List Tag) (p : LspPos) : Option Element :=
@@ -385,35 +401,56 @@ def buildFigures (e : Element) (balances : Balances) (txs : List Transaction) : 
   | .tag _ n => .tag n (countTag n txs) (tagValues n txs)
   | .tagValue _ n v => .tagValue n v (countTagValue n v txs)
 
-/-- `astRangeToProtocol` (`uint32(x - 1)` of an `int`: wraps for `x ≤ 0`). -/
+/-- `uint32(x - 1)` of an `int`: wraps for `x ≤ 0`. -/
 def toU32 (x : Nat) : Nat := if x = 0 then 4294967295 else (x - 1) % 4294967296
+
+/-- `columnMapper.lineColumn`: the character is the UTF-16 length of the first `col − 1` runes of
+    the line; without the line the column is passed on.  `lns` = the lines of the document. -/
+def convChar (lns : List HL.Text.Txt) (line col : Nat) : Nat :=
+  if line = 0 then toU32 col else
+  match lns[line - 1]? with
+  | some ln => HL.Text.u16len (ln.take (col - 1)) % 4294967296
+  | none => toU32 col
+
+/-- `columnMapper.runePosition`: the cursor with its character counted in runes. -/
+def runePos (lns : List HL.Text.Txt) (p : LspPos) : LspPos :=
+  match lns[p.line]? with
+  | some ln => ⟨p.line, HL.Text.takeU16 ln p.char⟩
+  | none => p
 
 structure HoverResult where
   figures : Figures
   range : Nat × Nat × Nat × Nat
 deriving Repr, Inhabited, DecidableEq
 
-/-- `Server.Hover` once the document is found: `doc` is `parser.Parse` of the requesting
-    document. -/
-def hover (ws perUri : Option Resolved) (doc : Journal) (p : LspPos) : Option HoverResult :=
+/-- `Server.Hover` after the cursor was converted: `p` counts runes.  `doc` is `parser.Parse` of
+    the requesting document, `lns` its lines. -/
+def hoverR (ws perUri : Option Resolved) (doc : Journal) (lns : List HL.Text.Txt) (p : LspPos) :
+    Option HoverResult :=
   match findElement doc.transactions p with
   | none => none
   | some e =>
     let txs := hoverTransactions ws perUri doc
     let r := e.rng
     some ⟨buildFigures e (accountBalances txs) txs,
-          (toU32 r.start.line, toU32 r.start.col, toU32 r.stop.line, toU32 r.stop.col)⟩
+          (toU32 r.start.line, convChar lns r.start.line r.start.col,
+           toU32 r.stop.line, convChar lns r.stop.line r.stop.col)⟩
+
+/-- `Server.Hover` once the document is found. -/
+def hover (ws perUri : Option Resolved) (doc : Journal) (lns : List HL.Text.Txt) (p : LspPos) :
+    Option HoverResult :=
+  hoverR ws perUri doc lns (runePos lns p)
 
 /-- `Server.Hover` for the document at `path` (`uriToPath` of the request's URI), given what the
     workspace holds.  The pinned server passed the workspace's resolved journal to `hover`
     whatever the path (`pinnedHoverAt`). -/
-def hoverAt (v : Option WsView) (perUri : Option Resolved) (path : Bytes) (doc : Journal) (p : LspPos) :
-    Option HoverResult :=
-  hover (workspaceResolvedFor v path) perUri doc p
+def hoverAt (v : Option WsView) (perUri : Option Resolved) (path : Bytes) (doc : Journal)
+    (lns : List HL.Text.Txt) (p : LspPos) : Option HoverResult :=
+  hover (workspaceResolvedFor v path) perUri doc lns p
 
 /-- `Server.Hover` before fix-orphan-journal-own-tree.diff. -/
-def pinnedHoverAt (v : Option WsView) (perUri : Option Resolved) (_path : Bytes) (doc : Journal) (p : LspPos) :
-    Option HoverResult :=
-  hover (v.map (·.resolved)) perUri doc p
+def pinnedHoverAt (v : Option WsView) (perUri : Option Resolved) (_path : Bytes) (doc : Journal)
+    (lns : List HL.Text.Txt) (p : LspPos) : Option HoverResult :=
+  hover (v.map (·.resolved)) perUri doc lns p
 
 end HL.Hover
